@@ -478,9 +478,49 @@ def run(spec: dict) -> dict:
     out: dict = {"hid": spec["hid"], "imports": [], "ids_after_base": dict(id_generator._ids),  # pylint: disable=protected-access
                  "hashseed": os.environ.get("PYTHONHASHSEED", "")}
     marks = [len(rec.events)]
+
+    def in_thread(steps):
+        """Run the nested steps in ANOTHER thread of this process (the counters are process-wide state: what a
+        worker thread creates or imports is part of the same history)."""
+        import threading
+        err = []
+
+        def body():
+            try:
+                for st in steps:
+                    if st[0] == "create":
+                        do_create(st[1], int(st[2]))
+                    elif st[0] == "nextid":
+                        do_nextid(st[1], int(st[2]))
+                    elif st[0] == "import":
+                        one_import(st[1])
+            except BaseException as e:  # pylint: disable=broad-except
+                err.append(e)
+        th = threading.Thread(target=body)
+        th.start()
+        th.join()
+        if err:
+            raise err[0]
+
+    def one_import(name):
+        before = set(catalogue_loaded())
+        t0 = time.time()
+        entry = {"m": name, "ok": True, "ids_before": dict(id_generator._ids) if hasattr(id_generator, "_ids") else {}}  # pylint: disable=protected-access
+        try:
+            importlib.import_module(name)
+        except BaseException as e:  # pylint: disable=broad-except
+            tb = traceback.extract_tb(e.__traceback__)
+            where = [f"{os.path.basename(fr.filename)}:{fr.lineno} {fr.line}" for fr in tb if "symplyphysics" in fr.filename][-2:]
+            entry.update(ok=False, err=type(e).__name__, msg=str(e)[:200], where=where)
+        entry["s"] = round(time.time() - t0, 2)
+        entry["loaded"] = [m for m in catalogue_loaded() if m not in before]
+        out["imports"].append(entry)
+
     for step in spec["steps"]:
         kind = step[0]
-        if kind == "create":
+        if kind == "thread":
+            in_thread(step[1])
+        elif kind == "create":
             do_create(step[1], int(step[2]))
         elif kind == "nextid":
             do_nextid(step[1], int(step[2]))
